@@ -38,7 +38,7 @@ def gen(tier, rng):
     cases = []
     g = 0
     dws = list(range(1, 13)) + [15, 16, 17, 23, 31, 32, 33, 47, 63, 64, 65, 70]
-    factors = [(1, 3), (1, 2), (2, 3), (1, 1), (3, 2), (2, 1), (3, 1), (9, 2), (7, 1)]
+    factors = [(1, 3), (1, 2), (2, 3), (1, 1), (3, 2), (2, 1), (5, 2), (3, 1), (4, 1), (9, 2), (5, 1), (7, 1), (8, 1), (10, 1)]
     filters = rz.BUILTIN
     n = 0
     for pt in rz.ALL_PT:
